@@ -5,11 +5,11 @@ import MLPE.Proofs.EngTasks
 # Only the nodes of a recurrent subgraph are ever re-executed — all programs, all schedules
 
 `St.hide` (`hide_last_execution`) is the only way a node can be executed again (C04: executions ≤ 1 + hides).  This file
-shows *where* it is applied: to the launch order of a DAG that is the subgraph `start → dest` of a `RecurrentSubGraph`
-mark, and to such a destination before its forced default.  The invariant `RX` carries it: every `.dagInit d` frame has a
-non-recurrent `d` (recurrent DAGs are entered inside `_run_recurrent_subgraph`), every `.recIterRet … g …` frame holds the
-`recGraph` of its mark — one lemma per handler of the model, as in `Proofs/EngCore.lean`, closed by the primitives that
-install a task's new frames.  No hypothesis on the program.
+shows *where* it is applied: by `_run_recurrent_subgraph`, before every iteration, to the nodes between `start` and `dest`
+of its `RecurrentSubGraph` mark, and to such a destination before its forced default.  The invariant `RX` carries it: every
+`.recIterRet … n start …` frame belongs to a mark (`start` is the start node declared for `n`) — one lemma per handler of
+the model, as in `Proofs/EngCore.lean`, closed by the primitives that install a task's new frames.  No hypothesis on the
+program.
 -/
 namespace MLPE.Eng
 open MLPE
@@ -19,11 +19,9 @@ def InRecScope (P : Program) (n : Node) : Prop :=
   (∃ dst start io g, (P.g.attr dst).startNode = some start ∧ recGraph P start dst io = some g ∧ n ∈ g.nodes) ∨
   (P.g.attr n).startNode.isSome = true
 
-/-- the frames that matter: a task about to enter `_run_dag` does so for a non-recurrent DAG (a recurrent one is entered
-inside `_run_recurrent_subgraph`), and the DAG `_run_recurrent_subgraph` iterates is the subgraph of its mark -/
+/-- the frames that matter: `_run_recurrent_subgraph` iterates for the start node declared for its destination -/
 def RecFrameOK (P : Program) : Frame → Prop
-  | .dagInit d => d.isRec = false
-  | .recIterRet _ n start g _ => (P.g.attr n).startNode = some start ∧ ∃ io, recGraph P start n io = some g
+  | .recIterRet _ n start _ _ => (P.g.attr n).startNode = some start
   | _ => True
 
 def RFramesOK (P : Program) (fs : List Frame) : Prop := ∀ f ∈ fs, RecFrameOK P f
@@ -451,22 +449,10 @@ theorem rg_dagLaunch {c : Ctx} (d : DagRef) (below : List Frame) (hb : RFramesOK
     · exact rg_block h obs _ _ (RFramesOK.cons trivial hb)
 
 theorem rg_dagInit {c : Ctx} {s : St} (h : RX c.P (some c.t) s) (obs : List Obs) (d : DagRef) (below : List Frame)
-    (hb : RFramesOK c.P below) (hd : d.isRec = true → RecD c.P d) : RX c.P none (dagInit c s obs d below).1 := by
+    (hb : RFramesOK c.P below) : RX c.P none (dagInit c s obs d below).1 := by
   unfold dagInit
   simp only []
-  have h1 : RX c.P (some c.t) (if d.isRec = true then (s.noteOrder (validOrder c.P s d c.ord)).hide c.ord
-      else s.noteOrder (validOrder c.P s d c.ord)) := by
-    split
-    · next hrec =>
-      refine (h.noteOrder _).hide c.ord ?_
-      cases hv : validOrder c.P s d c.ord with
-      | false => left; simp [St.noteOrder]
-      | true =>
-        right
-        intro n hn
-        obtain ⟨dst, start, io, hs, hg⟩ := hd hrec
-        exact Or.inl ⟨dst, start, io, d, hs, hg, validOrder_sub' hv n hn⟩
-    · exact h.noteOrder _
+  have h1 : RX c.P (some c.t) (s.noteOrder (validOrder c.P s d c.ord)) := h.noteOrder _
   split
   · exact rg_retTo h1 _ below _ hb
   · exact rg_dagLaunch d below hb _ _ _ h1
@@ -485,9 +471,7 @@ theorem rg_switchStart {c : Ctx} {s : St} (h : RX c.P (some c.t) s) (obs : List 
     split
     · exact rg_raiseOut h1 obs below _
     · next sub hsub =>
-      refine rg_dagInit h1 obs sub _ (RFramesOK.cons trivial hb) ?_
-      intro hrec
-      rw [reducedRef_notRec hsub] at hrec; cases hrec
+      exact rg_dagInit h1 obs sub _ (RFramesOK.cons trivial hb)
 
 theorem rg_oneofWin {c : Ctx} {s : St} (h : RX c.P (some c.t) s) (obs : List Obs) (head cand : Node) (below : List Frame)
     (hb : RFramesOK c.P below) : RX c.P none (oneofWin c s obs head cand below).1 := by
@@ -512,7 +496,7 @@ theorem rg_oneofTry {c : Ctx} (d : DagRef) (head : Node) (below : List Frame) (h
     split
     · exact rg_raiseOut h1 obs below _
     · next sub hsub =>
-      have h2 := h1.spawn [.dagInit sub] .dag (RFramesOK.cons (reducedRef_notRec hsub) (RFramesOK.nil _))
+      have h2 := h1.spawn [.dagInit sub] .dag (RFramesOK.cons trivial (RFramesOK.nil _))
       split
       · split
         · exact ih _ _ h2
@@ -534,23 +518,29 @@ theorem rg_recFinish {c : Ctx} {s : St} (h : RX c.P (some c.t) s) (obs : List Ob
   unfold recFinish
   exact rg_retTo (h.setActive _) obs below _ hb
 
+theorem recScopeNodes_inScope {P : Program} {n start : Node} (hs : (P.g.attr n).startNode = some start) (io : Bool) :
+    ∀ m ∈ recScopeNodes P start n io, InRecScope P m := by
+  intro m hm
+  unfold recScopeNodes at hm
+  split at hm
+  · next b hb => exact Or.inl ⟨n, start, io, b, hs, hb, hm⟩
+  · cases hm
+
 theorem rg_recIter {c : Ctx} {s : St} (h : RX c.P (some c.t) s) (obs : List Obs) (d : DagRef) (n start : Node) (g : DagRef)
     (k : Nat) (r : Val) (below : List Frame) (hb : RFramesOK c.P below)
-    (hg : (c.P.g.attr n).startNode = some start ∧ ∃ io, recGraph c.P start n io = some g) :
+    (hg : (c.P.g.attr n).startNode = some start) :
     RX c.P none (recIter c s obs d n start g k r below).1 := by
   unfold recIter
   simp only []
   split
-  · refine rg_dagInit (h.setAdditional _ _) obs g _ (RFramesOK.cons (f := .recIterRet d n start g k) hg hb) ?_
-    intro _
-    obtain ⟨hs, io, hio⟩ := hg
-    exact ⟨n, start, io, hs, hio⟩
+  · exact rg_dagInit ((h.setAdditional _ _).hide _ (Or.inr (recScopeNodes_inScope hg _))) obs g _
+      (RFramesOK.cons (f := .recIterRet d n start g k) hg hb)
   · split
     · refine rg_nodeStart (h.hide [n] (Or.inr ?_)) obs d n true _ (RFramesOK.cons trivial hb)
       intro m hm
       simp only [List.mem_singleton] at hm
       subst hm
-      exact Or.inr (by rw [hg.1]; rfl)
+      exact Or.inr (by rw [hg]; rfl)
     · split
       · exact rg_recFinish (RX.notifyAll _ (RX.notify (h.setRes _ _) _)) obs n start below hb
       · exact rg_raiseOut (h.notify _) obs below _
@@ -566,7 +556,9 @@ theorem rg_recStart {c : Ctx} {s : St} (h : RX c.P (some c.t) s) (obs : List Obs
     · simp only []
       split
       · exact rg_raiseOut (h.setActive _) obs below _
-      · next g hg => exact rg_recIter (h.setActive _) obs d n start g 0 r below hb ⟨hst, _, hg⟩
+      · split
+        · exact rg_raiseOut (h.setActive _) obs below _
+        · next g hg => exact rg_recIter (h.setActive _) obs d n start g 0 r below hb hst
 
 
 /-! ### `chart.run`, cancellation, dispatch -/
@@ -601,7 +593,7 @@ theorem rg_mgrBegin {c : Ctx} {s : St} (h : RX c.P (some c.t) s) (obs : List Obs
   · split
     · exact rg_mgrComplete h obs _
     · next d hd =>
-      exact rg_mgrCheck (h.spawn [.dagInit d] .run (RFramesOK.cons (reducedRef_notRec hd) (RFramesOK.nil _))) _
+      exact rg_mgrCheck (h.spawn [.dagInit d] .run (RFramesOK.cons trivial (RFramesOK.nil _))) _
 
 theorem rg_mgrStart {c : Ctx} {s : St} (h : RX c.P (some c.t) s) (obs : List Obs) : RX c.P none (mgrStart c s obs).1 := by
   unfold mgrStart
@@ -653,7 +645,6 @@ theorem rg_stepTask {c : Ctx} {s : St} (h : RX c.P none s) {out : Out} (hs : ste
                | exact rg_cbThen hx [] _ _ _ (fun j => RFramesOK.cons (f := .mgrCbComplete j _) trivial (RFramesOK.nil _))
                    (fun s' obs' h' => rg_mgrReturn h' obs' _)
                | exact rg_dagInit hx [] _ _ (hb _ _ (by assumption)).1
-                   (fun hrec => by have := (hb _ _ (by assumption)).2; simp only [RecFrameOK] at this; rw [this] at hrec; cases hrec)
                | exact rg_dagLaunch _ _ (hb _ _ (by assumption)).1 _ s [] hx
                | exact rg_dagWaitDest hx [] _ _ (hb _ _ (by assumption)).1
                | exact rg_nodeStart hx [] _ _ _ _ (hb _ _ (by assumption)).1
